@@ -3,9 +3,12 @@
 namespace Storrent.Upload
 
 /-- `case protocol.Request`: the guards that return at once, before peer.requested is
-    touched, with what they return -/
+    touched, with what they return — canonical form: one row per top-level `||` disjunct in
+    evaluation order (grouping of adjacent guards is immaterial), locals replaced by their
+    defining selector or a positional placeholder (their names are immaterial) -/
 def expectedRequestGuards : List String :=
-  ["peer.Info == nil || peer.amUnchoking == 0 => reject(peer, m.Index, m.Begin, m.Length)",
+  ["peer.Info == nil => reject(peer, m.Index, m.Begin, m.Length)",
+   "peer.amUnchoking == 0 => reject(peer, m.Index, m.Begin, m.Length)",
    "m.Length > maxRequestLength => reject(peer, m.Index, m.Begin, m.Length)",
    "m.Index >= uint32(numPieces(peer)) => ErrRange"]
 
